@@ -11,6 +11,7 @@ import (
 	"time"
 
 	"verif/internal/hz"
+	"verif/internal/memnet"
 	"verif/internal/rt"
 	"verif/internal/wire"
 )
@@ -206,15 +207,17 @@ func c01World(t *testing.T, p c01Params) rt.Result {
 				rid, ras = pi.rid, pi.ps.RemoteAS
 			}
 			rc := w.Connect(a)
-			if rr.IntN(6) == 0 {
-				rc.Pair.MaxRead = 1 + rr.IntN(5)
-			}
-			if rr.IntN(12) == 0 {
-				rc.Pair.FailWriteAt = 1 + rr.IntN(4)
-			}
-			if rr.IntN(12) == 0 {
-				rc.Pair.FailReadAt = 1 + rr.IntN(6)
-			}
+			rc.Pair.Configure(func(pp *memnet.Pair) {
+				if rr.IntN(6) == 0 {
+					pp.MaxRead = 1 + rr.IntN(5)
+				}
+				if rr.IntN(12) == 0 {
+					pp.FailWriteAt = 1 + rr.IntN(4)
+				}
+				if rr.IntN(12) == 0 {
+					pp.FailReadAt = 1 + rr.IntN(6)
+				}
+			})
 			awg.Add(1)
 			go func() {
 				defer awg.Done()
